@@ -437,6 +437,17 @@ def run_check(prop: str, tier: str, seed: int, jobs: int, replay: str | None = N
 
     bounds = getattr(mod, "bounds", lambda tier: {})(tier)
     wall = time.time() - t0
+    try:
+        import subprocess
+
+        import exponax
+
+        root = os.path.dirname(os.path.dirname(os.path.abspath(exponax.__file__)))
+        head = subprocess.run(["git", "-C", root, "rev-parse", "--short", "HEAD"], capture_output=True, text=True).stdout.strip()
+        dirty = bool(subprocess.run(["git", "-C", root, "status", "--porcelain", "--", "exponax"], capture_output=True, text=True).stdout.strip())
+        tree = {"exponax_imported_from": root, "git_head": head, "working_tree_modified": dirty}
+    except Exception as e:  # provenance is informational only
+        tree = {"error": repr(e)[:100]}
     ev = {
         "property_id": prop,
         "tier": tier,
@@ -453,6 +464,7 @@ def run_check(prop: str, tier: str, seed: int, jobs: int, replay: str | None = N
                             "distinct_nontrivial counts distinct observed implementation outcomes (hash of rounded values)"),
             "exhaustive": bool(getattr(mod, "EXHAUSTIVE", True)),
             "bounds": _jsonable(bounds),
+            "tree_under_test": tree,
             "diamonds_merged": agg["diamonds"],
             "dimension_coverage": {k: (sorted(v)[:40] if len(v) <= 40 else {"count": len(v), "head": sorted(v)[:12]}) for k, v in dims.items()},
             "work_units": len(units),
